@@ -163,3 +163,102 @@ func TestVerif_C03_Wrappers(t *testing.T) {
 		}
 	})
 }
+
+
+// Histories of consecutive verifications under RELATED public keys: P then -P, P again, a key with the same x, the same
+// signature presented under another key, ... Each verdict must be the standard's for that call alone.
+func TestVerif_C03_RelatedKeyHistory(t *testing.T) {
+	rec := stats.Get("C03", "related-keys")
+	rec.Rule("rapid history of 2..5 VerifyHashed calls in one process on keys related to a base key P=[d]G: {P with a valid signature, P with another valid signature, -P=(x,p-y) with the signature made for P (reject), -P with a signature made with the private key n-d (accept), 2P / P+G with a fresh valid signature, P with the previous call's signature, an unrelated key}. Oracle: each verdict equals sm2ref.Verify for that call. Non-trivial: every history; distinct by history.")
+	t.Cleanup(stats.FlushAll)
+	rapid.Check(t, func(t *rapid.T) {
+		r0 := gen.Rand(t, "seed")
+		d, _, _ := sm2gen.PrivKey(t, "d")
+		nd := new(big.Int).Sub(sm2gen.N, d) // private key of -P (valid unless d = 1: n-1 is out of range, still a fine verification key)
+		type kp struct {
+			d      *big.Int
+			px, py []byte
+		}
+		mk := func(k *big.Int) kp { x, y, _ := sm2gen.Pub(k); return kp{k, x, y} }
+		keys := map[string]kp{"P": mk(d), "-P": mk(nd), "2P": mk(new(big.Int).Mod(new(big.Int).Lsh(d, 1), sm2gen.N)), "P+G": mk(new(big.Int).Mod(new(big.Int).Add(d, big.NewInt(1)), sm2gen.N))}
+		sign := func(k kp) (e, r, s []byte) {
+			if new(big.Int).Mod(new(big.Int).Add(k.d, big.NewInt(1)), sm2gen.N).Sign() == 0 || k.d.Sign() == 0 {
+				// d = n-1 (or 0) cannot sign: present an arbitrary (invalid) signature instead
+				return gen.RandBytes(r0, 32), gen.Pad32(big.NewInt(5)), gen.Pad32(big.NewInt(7))
+			}
+			for tries := 0; ; tries++ {
+				if tries > 100 {
+					return gen.RandBytes(r0, 32), gen.Pad32(big.NewInt(5)), gen.Pad32(big.NewInt(7))
+				}
+				e = gen.RandBytes(r0, 32)
+				nonce := gen.RandBytes(r0, 32)
+				nonce[0] &= 0x7f
+				kv := new(big.Int).SetBytes(nonce)
+				if kv.Sign() == 0 || k.d.Sign() == 0 {
+					continue
+				}
+				// textbook signature with big.Int (valid for any d != n-1 as a verification matter)
+				x1 := sm2ref.Mul(kv, sm2ref.G).X
+				rr := new(big.Int).Add(new(big.Int).SetBytes(e), x1)
+				rr.Mod(rr, sm2gen.N)
+				d1 := new(big.Int).Add(k.d, big.NewInt(1))
+				if rr.Sign() == 0 || new(big.Int).Add(rr, kv).Cmp(sm2gen.N) == 0 || new(big.Int).Mod(d1, sm2gen.N).Sign() == 0 {
+					continue
+				}
+				ss := new(big.Int).Mul(rr, k.d)
+				ss.Sub(kv, ss).Mul(ss, new(big.Int).ModInverse(d1, sm2gen.N)).Mod(ss, sm2gen.N)
+				if ss.Sign() == 0 {
+					continue
+				}
+				return e, gen.Pad32(rr), gen.Pad32(ss)
+			}
+		}
+		steps := gen.Int(t, "steps", 2, 5)
+		var hist []string
+		var le, lr, ls []byte
+		for i := 0; i < steps; i++ {
+			kind := gen.Pick(t, "step", "P", "P", "-P:sigP", "-P:own", "2P", "P+G", "P:prev-sig", "unrelated")
+			var k kp
+			var e, r, s []byte
+			switch kind {
+			case "P", "2P", "P+G":
+				k = keys[kind]
+				e, r, s = sign(k)
+			case "-P:sigP":
+				k = keys["-P"]
+				e, r, s = sign(keys["P"])
+			case "-P:own":
+				k = keys["-P"]
+				e, r, s = sign(k)
+			case "P:prev-sig":
+				k = keys["P"]
+				if le == nil {
+					e, r, s = sign(k)
+				} else {
+					e, r, s = le, lr, ls
+				}
+			default:
+				dn, _, _ := sm2gen.PrivKey(t, "dn")
+				k = mk(dn)
+				e, r, s = sign(k)
+			}
+			le, lr, ls = e, r, s
+			hist = append(hist, kind)
+			want := sm2ref.Verify(k.px, k.py, e, r, s)
+			var ok bool
+			var err error
+			if p := vt.Catch(func() { ok, err = sm2.VerifyHashed(k.px, k.py, e, r, s) }); p != nil {
+				vt.Fail(t, rec, "C03:panic", "VerifyHashed panicked at step %d of history %v: %v", i, hist, p)
+				return
+			}
+			if ok != want {
+				vt.Fail(t, rec, "C03:history:verdict", "step %d of a history of consecutive verifications under related keys %v: VerifyHashed=%v (err=%v), the standard says %v\npx=%x py=%x\ne=%x\nr=%x\ns=%x", i, hist, ok, err, want, k.px, k.py, e, r, s)
+				return
+			}
+		}
+		rec.Case(stats.HashS(hist...)^stats.Hash(le, lr), true, fmt.Sprintf("steps:%d", steps))
+		if rec.WantSample("history") {
+			rec.Sample("history", map[string]interface{}{"steps": hist, "base_d": fmt.Sprintf("%x", d)})
+		}
+	})
+}
